@@ -25,7 +25,7 @@ type family struct {
 	foreign  map[string]string // generated files of a different grammar and package
 }
 
-var cwdModes = []string{"dot", "rel", "relslash", "abs", "absslash", "symlink", "symlinkrel"}
+var cwdModes = []string{"dot", "rel", "relslash", "abs", "absslash", "symlink", "symlinkrel", "parentref", "fromsub"}
 var mapModes = []string{"asc", "desc", "shuffle", "rotate", "shuffle"}
 
 func randMap(r *core.Rand) MapCfg {
@@ -400,6 +400,27 @@ func (st *c13State) execRun(run *Run, record bool) (core.Signature, string, erro
 			}
 			log = append(log, op.String())
 			continue
+		case "MangleGen":
+			// what tools do to checked-out files: line endings converted, a byte
+			// order mark prepended, trailing blanks added
+			for _, g := range GenFiles {
+				p := filepath.Join(dir, g)
+				b, err := os.ReadFile(p)
+				if err != nil {
+					continue
+				}
+				switch op.File {
+				case "crlf":
+					b = []byte(strings.ReplaceAll(strings.ReplaceAll(string(b), "\r\n", "\n"), "\n", "\r\n"))
+				case "bom":
+					b = append([]byte{0xEF, 0xBB, 0xBF}, b...)
+				default:
+					b = []byte(strings.ReplaceAll(string(b), "\n", " \n"))
+				}
+				os.WriteFile(p, b, 0o644)
+			}
+			log = append(log, op.String())
+			continue
 		}
 		v := run.Variants[op.Variant]
 		if v == nil {
@@ -558,7 +579,11 @@ func (st *c13State) randomRun(f *family, runIdx int, calls int, writeCalls []int
 			}
 			run.Ops = append(run.Ops, Op{Kind: "FailGen", Variant: pickV(), Binary: "sim", Map: randMap(r), Cwd: cwdModes[r.Intn(len(cwdModes))], Fault: flt})
 		case 8:
-			run.Ops = append(run.Ops, Op{Kind: "DeleteGen", File: GenFiles[r.Intn(3)]})
+			if r.Intn(2) == 0 {
+				run.Ops = append(run.Ops, Op{Kind: "MangleGen", File: []string{"crlf", "bom", "trailing-blanks"}[r.Intn(3)]})
+			} else {
+				run.Ops = append(run.Ops, Op{Kind: "DeleteGen", File: GenFiles[r.Intn(3)]})
+			}
 		case 9:
 			plant := map[string]string{}
 			for _, g := range GenFiles {
